@@ -399,6 +399,25 @@ func runC07(w *core.W) {
 			}
 		}
 	}
+	// long lists: elements and arguments evaluated in source order whatever their number
+	for zi, n := range []int{2, 3, 7, 8, 9, 15, 16, 17, 31, 32, 33, 64, 65, 127, 128, 129, 256, 500} {
+		if !w.Mine(zi) {
+			continue
+		}
+		var el []string
+		for k := 0; k < n; k++ {
+			switch k % 3 {
+			case 0:
+				el = append(el, fmt.Sprintf("rec(%d)", k))
+			case 1:
+				el = append(el, fmt.Sprintf("($i = %d)", k))
+			default:
+				el = append(el, "$i")
+			}
+		}
+		c07Store(w, &StoreCase{Progs: []string{"[" + strings.Join(el, ", ") + "]", "rec(" + strings.Join(el, ", ") + ")", "$i"}, X: 1, Y: 2})
+		w.Count("long_list_cases")
+	}
 	// forbidden targets in several positions
 	for i, t := range forbiddenTargets {
 		for j, tmpl := range []string{"%s = 1", "$z = 1, %s = 2", "[%s = 1]", "rec(%s = 1)", "true ? (%s = 1) : 0", "(%s = 1)", "%s = $a = 1", "$b = %s = 1"} {
